@@ -39,9 +39,13 @@ func (r *c35sRun) Setup(s *sim.Sim) {
 	p := s.Plan
 	s.DrawPolicy()
 	loadKeys()
-	for {
+	for i := 0; ; i++ {
 		r.Cfg = drawSecCfg(p, true)
 		if r.Cfg.ClientBits == 2048 && r.Cfg.ServerBits == 2048 {
+			break
+		}
+		if i >= 40 { // an exhausted (minimised) tape draws the same configuration for ever
+			r.Cfg.ClientBits, r.Cfg.ServerBits = 2048, 2048
 			break
 		}
 	}
@@ -126,6 +130,9 @@ func (r *c35sRun) Main(s *sim.Sim) {
 			s.Fail("C35", "activation-accepted", "bad-client-signature-"+r.Variant, "ActivateSession with a %s client signature was answered Good on %s/%d", r.Variant, r.Cfg.Policy, r.Cfg.Mode)
 			return
 		}
+	}
+	if r.Variant != "valid" {
+		s.Fault("activation-" + r.Variant)
 	}
 	s.Nontrivial()
 	xid := e.nodeID("x")
